@@ -185,7 +185,8 @@ def x_prog(ctx, case):
         histories.append(([e[1:] for e in env.events if not e[1].startswith("onexc_")],
                           log.names(), type(run.propagated).__name__, outcome_details))
         nontrivial = nontrivial or bool(env.raised or env.tags("reg", "patch", "use_fixture"))
-    ctx.check(histories[0] == histories[1] == histories[2], "rerun.same-sequence",
+    # (by repr: the logged values include objects whose == has no truth value)
+    ctx.check(repr(histories[0]) == repr(histories[1]) == repr(histories[2]), "rerun.same-sequence",
               lambda: {"run1": histories[0][1:], "run2": histories[1][1:], "run3": histories[2][1:],
                        "log1": histories[0][0][:40], "log2": histories[1][0][:40]})
     return nontrivial
